@@ -217,9 +217,16 @@ impl VarResolve for AssignToFunction {
 
             // store this in the name context too to make it easier for instruction generator
             // TODO add unit test
-            // TODO what if the name already exists?
-            ctx.names
-                .insert_compact(converted_name.as_bare_name().clone(), variable_info);
+            // a bare function name (e.g. `Foo = 1` inside `FUNCTION Foo%`) comes here on every
+            // assignment, so the name might already exist
+            if ctx
+                .names
+                .get_compact_var_recursively(converted_name.as_bare_name(), function_qualifier)
+                .is_none()
+            {
+                ctx.names
+                    .insert_compact(converted_name.as_bare_name().clone(), variable_info);
+            }
 
             let expr = Expression::Variable(converted_name, expr_type);
 
